@@ -75,6 +75,8 @@ type Case struct {
 	// directory with a file in it and an empty directory that are none of fs_db's business (a mount point's
 	// lost+found, somebody's notes). fs_db must leave them alone and must not put content there.
 	Foreign bool `json:"foreign,omitempty"`
+	// OddPath: the database and its roots live under a directory whose name contains glob and format metacharacters
+	OddPath bool `json:"odd_path,omitempty"`
 	// ShareRoot (C05): the other databases of the process (op otherdb, Others) keep their contents under the
 	// first storage root of the database under test (their metadata directories are their own)
 	ShareRoot bool `json:"share_root,omitempty"`
@@ -211,6 +213,10 @@ func NewWorldNoHook(c Case, r *ev.Result) (*World, error) {
 func NewWorld(c Case, r *ev.Result) (*World, error) {
 	w := newWorldStruct(c, r)
 	w.Dir = filepath.Join(dbRoot(), fmt.Sprintf("w%d-%d", os.Getpid(), dirCounter.Add(1)))
+	if c.OddPath {
+		// characters that are ordinary in a directory name and special in glob patterns, format strings, shells
+		w.Dir = filepath.Join(dbRoot(), fmt.Sprintf("w %d [%d]*?%%d{a,b}", os.Getpid(), dirCounter.Add(1)))
+	}
 	if err := os.MkdirAll(w.Dir, 0o755); err != nil {
 		return nil, err
 	}
